@@ -3,10 +3,12 @@
 //@@ verus-args --rlimit 40
 //@@ fnprops C04 lemma_done_stable canary_morphism_contract
 //@@ fnprops C01 canary_from_str_contract
+//@@ fnprops C05 canary_cover_contract lemma_fibres lemma_sheet lemma_compose lemma_bop lemma_xor1 lemma_xor1_inj
 #![feature(panic_internals)]
 #![feature(sized_hierarchy)]
 use vstd::prelude::*;
 use vstd::std_specs::iter::*;
+use vstd::arithmetic::div_mod::*;
 use std::collections::VecDeque;
 verus! {
 
@@ -75,6 +77,52 @@ pub trait DSet: Sized {
             }
         }
         __b
+    }
+    //@ end
+
+    // default method no type overrides
+    //@ begin src/dsets.rs :: trait DSet: Sized :: fn orbit_reps_2d | props=C05
+    //@ rw R16 /-> Vec<usize>/-> (result: Vec<usize>)/
+    //@ rw R12 /let mut result = vec!\[\];/let mut result: Vec<usize> = vec![];/
+    //@ rw R10 /for d in 1\.\.=self\.size\(\)$/for d in 1..(self.size()) + 1/
+    #[verifier::exec_allows_no_decreases_clause]
+    fn orbit_reps_2d(&self, i: usize, j: usize) -> (result: Vec<usize>)
+        requires self.wf()
+        // total for every index pair (also out-of-range ones); every representative is a chamber
+        ensures forall|k: int| 0 <= k < result@.len() ==> 1 <= #[trigger] result@[k] <= self.ssize()
+    {
+        proof { self.lemma_wf(); }
+        let mut result: Vec<usize> = vec![];
+        let mut seen = vec![false; self.size() + 1];
+
+        for d in 1..(self.size()) + 1
+            invariant self.wf(), seen@.len() == self.ssize() + 1, self.ssize() < usize::MAX,
+                forall|k: int| 0 <= k < result@.len() ==> 1 <= #[trigger] result@[k] <= self.ssize(),
+        {
+            if !seen[d] {
+                result.push(d);
+                seen[d] = true;
+
+                let mut e = d;
+
+                loop
+                    invariant self.wf(), seen@.len() == self.ssize() + 1, 1 <= e <= self.ssize(), 1 <= d <= self.ssize(),
+                        forall|k: int| 0 <= k < result@.len() ==> 1 <= #[trigger] result@[k] <= self.ssize(),
+                {
+                    proof { self.lemma_wf(); }
+                    let ei = self.op(i, e).unwrap_or(e);
+                    seen[ei] = true;
+                    e = self.op(j, ei).unwrap_or(ei);
+                    seen[e] = true;
+
+                    if e == d {
+                        break;
+                    }
+                }
+            }
+        }
+
+        result
     }
     //@ end
 }
@@ -712,6 +760,7 @@ pub open spec fn final_inv(ds: &SimpleDSet, i: int, d: int,
         }
 }
 
+#[verifier::spinoff_prover]
 proof fn lemma_inner_step(ds: &SimpleDSet, i: int, d: int, e: int, steps: int,
                           seen0: Seq<bool>, oi0: Seq<usize>, seen: Seq<bool>, oi: Seq<usize>, nr: usize)
     requires ds.inv(), 0 <= i < ds.dim, steps >= 0,
@@ -788,6 +837,7 @@ proof fn lemma_inner_step(ds: &SimpleDSet, i: int, d: int, e: int, steps: int,
     }
 }
 
+#[verifier::spinoff_prover]
 proof fn lemma_final_to_outer(ds: &SimpleDSet, i: int, d: int,
                   seen0: Seq<bool>, oi0: Seq<usize>, seen: Seq<bool>, oi: Seq<usize>, nr: usize, n: int)
     requires ds.inv(), 0 <= i < ds.dim, 1 <= d <= ds.size, nr < n + 1, nr == n,
@@ -825,6 +875,7 @@ proof fn lemma_final_to_outer(ds: &SimpleDSet, i: int, d: int,
 //@ rw R12 /let mut steps = 0;/let mut steps: usize = 0;/
 //@ rw R10 /for d in 1\.\.=ds\.size\(\)$/for d in 1..(ds.size()) + 1/
 //@ rw R8 /^([ \t]*)is_chain \|= (.*);$/\1is_chain = is_chain || (\2);/
+#[verifier::spinoff_prover]
 #[verifier::exec_allows_no_decreases_clause]
 pub fn collect_orbits(ds: &SimpleDSet)
     -> (res: (Vec<usize>, Vec<bool>, Vec<Vec<usize>>))
@@ -1325,6 +1376,7 @@ impl PartialDSym {
     //@ rw R2 /let &(\w+) = /let \1 = */
     //@ rw R15 /PartialDSym::from\(dset\)/PartialDSym::from_partial_dset(dset)/
     //@ rw R15 /Ok\(dsym\.into\(\)\)/Ok(dsym)/
+    #[verifier::spinoff_prover]
     #[verifier::exec_allows_no_decreases_clause]
     fn from_str(s: &str) -> (res: Result<Self, String>)
         // C01: for EVERY string: no panic on any path, and an Ok result is a well-formed complete symbol: all operations
@@ -1627,6 +1679,7 @@ pub open spec fn done_ok<S: DSet, T: DSet>(this: &S, other: &T, m: Seq<usize>, d
 }
 
 // updating an unassigned slot keeps every finished chamber valid
+#[verifier::spinoff_prover]
 proof fn lemma_done_stable<S: DSet, T: DSet>(this: &S, other: &T, m: Seq<usize>, done: Set<int>, di: int, ei: usize)
     requires this.wf(), other.wf(), done_ok(this, other, m, done), 1 <= di < m.len(), m[di] == 0, ei != 0,
         m.len() == this.ssize() + 1,
@@ -1659,6 +1712,7 @@ proof fn lemma_done_stable<S: DSet, T: DSet>(this: &S, other: &T, m: Seq<usize>,
 //@ rw R12 /let mut queue = VecDeque::new\(\);/let mut queue: VecDeque<(usize, usize)> = VecDeque::new();/
 //@ rw R10 /for i in 0\.\.=this\.dim\(\)$/for i in 0..(this.dim()) + 1/
 //@ rw R14 /\.all\(\|i\| (.*)\) \{$/.all(|i: usize| -> (b: bool)\n            { \1 }) {/
+#[verifier::spinoff_prover]
 #[verifier::exec_allows_no_decreases_clause]
     pub fn morphism<S: DSet, T: DSet>(this: &S, other: &T, img0: usize)
         -> (r: Option<Vec<usize>>)
@@ -1900,6 +1954,569 @@ pub open spec fn base_decided<S: DSet>(this: &S, result: Seq<Vec<usize>>, d: int
     }
 //@ end
 
+// ---------------------------------------------------------------------------------------------------------
+// C05: derived symbols.  build_set is the engine of every cover constructor.
+// A closure's contract is one-directional in Verus (op.ensures(args, r) ==> clause), so conditions on the argument
+// closure are phrased with ensures-facts on the left of an implication.
+// ---------------------------------------------------------------------------------------------------------
+impl PartialDSet {
+    pub open spec fn vop(&self, i: int, d: int) -> Option<usize> {
+        if self.t(i, d) == 0 { None } else { Some(self.t(i, d) as usize) }
+    }
+}
+
+pub open spec fn deterministic<F: Fn(usize, usize) -> Option<usize>>(op: F, size: usize, dim: usize) -> bool {
+    forall|i: usize, d: usize, r1: Option<usize>, r2: Option<usize>|
+        #![trigger op.ensures((i, d), r1), op.ensures((i, d), r2)]
+        i <= dim && 1 <= d <= size && op.ensures((i, d), r1) && op.ensures((i, d), r2) ==> r1 == r2
+}
+
+pub open spec fn consistent<F: Fn(usize, usize) -> Option<usize>>(op: F, size: usize, dim: usize) -> bool {
+    &&& forall|i: usize, d: usize, e: usize| #![trigger op.ensures((i, d), Some(e))]
+            i <= dim && 1 <= d <= size && op.ensures((i, d), Some(e)) ==> 1 <= e <= size
+    &&& forall|i: usize, d: usize, e: usize, r: Option<usize>| #![trigger op.ensures((i, d), Some(e)), op.ensures((i, e), r)]
+            i <= dim && 1 <= d <= size && op.ensures((i, d), Some(e)) && op.ensures((i, e), r) ==> r == Some(d)
+    &&& forall|i: usize, a: usize, b: usize, e: usize| #![trigger op.ensures((i, a), Some(e)), op.ensures((i, b), Some(e))]
+            i <= dim && 1 <= a <= size && 1 <= b <= size && op.ensures((i, a), Some(e)) && op.ensures((i, b), Some(e)) ==> a == b
+}
+
+// an entry of the table is justified by an actual call at that chamber or at its partner
+pub open spec fn justified<F: Fn(usize, usize) -> Option<usize>>(op: F, i: usize, c: usize, x: usize) -> bool {
+    op.ensures((i, c), Some(x)) || op.ensures((i, x), Some(c))
+}
+
+
+//@ begin src/derived.rs :: - :: fn build_set | props=C05
+//@ rw R16 /-> PartialDSet$/-> (dset: PartialDSet)/
+//@ rw R10+R17 /for i in 0\.\.=dset\.dim\(\)$/for i in it: 0..(dset.dim()) + 1/
+//@ rw R10+R17 /for d in 1\.\.=dset\.size\(\)$/for d in it2: 1..(dset.size()) + 1/
+#[verifier::spinoff_prover]
+pub fn build_set<F>(size: usize, dim: usize, op: F) -> (dset: PartialDSet)
+    where F: Fn(usize, usize) -> Option<usize>
+    requires size >= 1, dim >= 1, size * (dim + 1) <= usize::MAX, size < usize::MAX, dim < usize::MAX,
+        forall|i: usize, d: usize| i <= dim && 1 <= d <= size ==> op.requires((i, d)),
+        // op is a function, its values are chambers, and it is a partial involution (else `set` panics)
+        deterministic(op, size, dim), consistent(op, size, dim),
+    ensures dset.inv(), dset.size == size, dset.dim == dim,
+        // the table is exactly what op returned, entry by entry (None <-> undefined)
+        forall|i: usize, d: usize| i <= dim && 1 <= d <= size ==> op.ensures((i, d), #[trigger] dset.vop(i as int, d as int)),
+{
+    let mut dset = PartialDSet::new(size, dim);
+    for i in it: 0..(dset.dim()) + 1
+        invariant
+            it.seq().len() == dim + 1,
+            dset.inv(), dset.size == size, dset.dim == dim, dim < usize::MAX, size < usize::MAX,
+            forall|i: usize, d: usize| i <= dim && 1 <= d <= size ==> op.requires((i, d)),
+            deterministic(op, size, dim), consistent(op, size, dim),
+            forall|j: usize, d: usize| j < i && 1 <= d <= size ==> op.ensures((j, d), #[trigger] dset.vop(j as int, d as int)),
+            forall|j: int, d: int| i <= j <= dim && 1 <= d <= size ==> #[trigger] dset.t(j, d) == 0,
+    {
+        for d in it2: 1..(dset.size()) + 1
+            invariant
+                it2.seq().len() == size,
+                dset.inv(), dset.size == size, dset.dim == dim, dim < usize::MAX, size < usize::MAX, i <= dim,
+                forall|i: usize, d: usize| i <= dim && 1 <= d <= size ==> op.requires((i, d)),
+                deterministic(op, size, dim), consistent(op, size, dim),
+                forall|j: usize, c: usize| j < i && 1 <= c <= size ==> op.ensures((j, c), #[trigger] dset.vop(j as int, c as int)),
+                forall|j: int, c: int| i < j <= dim && 1 <= c <= size ==> #[trigger] dset.t(j, c) == 0,
+                forall|c: usize| 1 <= c < d ==> op.ensures((i, c), #[trigger] dset.vop(i as int, c as int)),
+                forall|c: usize| 1 <= c <= size && #[trigger] dset.t(i as int, c as int) != 0 ==> justified(op, i, c, dset.t(i as int, c as int) as usize),
+        {
+            let ghost old_dset = dset;
+            let ghost x0 = dset.t(i as int, d as int);
+            if let Some(di) = op(i, d) {
+                proof {
+                    assert(op.ensures((i, d), Some(di)));
+                    assert(1 <= di <= size);
+                    if x0 != 0 {
+                        // already set: by an earlier call at d (impossible order) or at the partner x0
+                        assert(justified(op, i, d, x0 as usize));
+                        if op.ensures((i, d), Some(x0 as usize)) { } else { assert(op.ensures((i, x0 as usize), Some(d))); }
+                        assert(x0 == di);
+                    }
+                    let y0 = dset.t(i as int, di as int);
+                    if y0 != 0 {
+                        assert(justified(op, i, di, y0 as usize));
+                        if op.ensures((i, di), Some(y0 as usize)) {
+                            // consistent: ensures((i,d),Some(di)) && ensures((i,di), r) ==> r == Some(d)
+                        } else {
+                            assert(op.ensures((i, y0 as usize), Some(di)));
+                            // wf: sop(i, y0) == di ; and entry (i, y0) = di is paired with d?  use involution of the table
+                            assert(dset.t(i as int, y0) == di);
+                        }
+                        assert(y0 == d);
+                    }
+                }
+                dset.set(i, d, di);
+                proof {
+                    assert forall|j: usize, c: usize| j < i && 1 <= c <= size implies op.ensures((j, c), #[trigger] dset.vop(j as int, c as int)) by {
+                        assert(dset.t(j as int, c as int) == old_dset.t(j as int, c as int));
+                        assert(op.ensures((j, c), old_dset.vop(j as int, c as int)));
+                    }
+                    assert forall|c: usize| 1 <= c <= size && #[trigger] dset.t(i as int, c as int) != 0 implies justified(op, i, c, dset.t(i as int, c as int) as usize) by {
+                        if c != d && c != di { assert(dset.t(i as int, c as int) == old_dset.t(i as int, c as int)); }
+                    }
+                    assert forall|c: usize| 1 <= c < d + 1 implies op.ensures((i, c), #[trigger] dset.vop(i as int, c as int)) by {
+                        if c == d { }
+                        else if c == di {
+                            // c < d was processed: its actual result was view_op = Some(old entry) = Some(d) now unchanged
+                            assert(op.ensures((i, c), old_dset.vop(i as int, c as int)));
+                            assert(old_dset.t(i as int, c as int) == 0 || old_dset.t(i as int, c as int) == d);
+                            if old_dset.t(i as int, c as int) == 0 {
+                                // c returned None earlier, but d now maps to c: contradiction with consistent
+                                assert(op.ensures((i, c), None));
+                            }
+                        }
+                        else {
+                            assert(dset.t(i as int, c as int) == old_dset.t(i as int, c as int));
+                            assert(op.ensures((i, c), old_dset.vop(i as int, c as int)));
+                        }
+                    }
+                }
+            } else {
+                proof {
+                    assert(op.ensures((i, d), None));
+                    if x0 != 0 {
+                        assert(justified(op, i, d, x0 as usize));
+                        if op.ensures((i, d), Some(x0 as usize)) { } else { assert(op.ensures((i, x0 as usize), Some(d))); }
+                        assert(false);
+                    }
+                    assert forall|c: usize| 1 <= c < d + 1 implies op.ensures((i, c), #[trigger] dset.vop(i as int, c as int)) by { }
+                }
+            }
+        }
+    }
+    dset
+}
+//@ end
+
+//@ begin src/derived.rs :: - :: fn build_sym_using_ms | props=C05
+//@ rw R16 /-> PartialDSym$/-> (res: PartialDSym)/
+//@ rw R15 /let mut dsym: PartialDSym = dset\.into\(\);/let mut dsym: PartialDSym = PartialDSym::from_partial_dset(dset);/
+//@ rw R14 /^([ \t]*)for d in (dsym\.orbit_reps_2d\(i, i \+ 1\))$/\1let __reps = \2;\n\1for d in it: __reps/
+//@ rw R14 /^([ \t]*)for i in 0\.\.(dsym\.dim\(\))$/\1let __n = \2;\n\1for i in 0..__n/
+pub fn build_sym_using_ms<F>(dset: PartialDSet, m: F) -> (res: PartialDSym)
+    where F: Fn(usize, usize) -> Option<usize>
+    requires dset.inv(), dset.complete(),     // `dset.into()` asserts completeness
+        forall|i: usize, d: usize| i < dset.dim && 1 <= d <= dset.size ==> m.requires((i, d)),
+    // adding degrees keeps the operations: the result is a well-formed symbol on exactly the given table
+    ensures res.inv(), res.dset.size == dset.size, res.dset.dim == dset.dim, res.dset.op@ == dset.op@,
+{
+    let mut dsym: PartialDSym = PartialDSym::from_partial_dset(dset);
+    let __n = dsym.dim();
+    for i in 0..__n
+        invariant dsym.inv(), dsym.dset.size == dset.size, dsym.dset.dim == dset.dim, dsym.dset.op@ == dset.op@, __n == dset.dim,
+            forall|i: usize, d: usize| i < dset.dim && 1 <= d <= dset.size ==> m.requires((i, d)),
+    {
+        let __reps = dsym.orbit_reps_2d(i, i + 1);
+        for d in it: __reps
+            invariant dsym.inv(), dsym.dset.size == dset.size, dsym.dset.dim == dset.dim, dsym.dset.op@ == dset.op@, i < dset.dim,
+                forall|i: usize, d: usize| i < dset.dim && 1 <= d <= dset.size ==> m.requires((i, d)),
+                forall|k: int| 0 <= k < it.seq().len() ==> 1 <= #[trigger] it.seq()[k] <= dset.size,
+        {
+            proof {
+                assert(1 <= it.seq()[it.index() as int] <= dset.size);
+                lemma_oix_bound(&dsym.dset, dsym.orbit_index@, dsym.orbit_rs@, dsym.orbit_vs@, i as int, d as int);
+            }
+            if let Some(r) = dsym.r(i, i + 1, d) {
+                if let Some(m) = m(i, d) {
+                    proof { assert(r * (m / r) <= m) by(nonlinear_arith) requires r >= 1, m >= 0; }
+                    dsym.set_v(i, d, m / r);
+                }
+            }
+        }
+    }
+    dsym
+}
+//@ end
+
+// ---- arithmetic of the sheet numbering: d = sz*k + c, 1 <= c <= sz ----
+pub open spec fn src_of(d: int, sz: int) -> int { (d - 1) % sz + 1 }
+pub open spec fn sheet_of(d: int, sz: int) -> int { (d - src_of(d, sz)) / sz }
+
+pub proof fn lemma_sheet(d: int, sz: int, n: int)
+    requires sz >= 1, n >= 0, 1 <= d <= n * sz
+    ensures 1 <= src_of(d, sz) <= sz, 0 <= sheet_of(d, sz) < n, d == sz * sheet_of(d, sz) + src_of(d, sz)
+{
+    let q = (d - 1) / sz;
+    let r = (d - 1) % sz;
+    lemma_fundamental_div_mod(d - 1, sz);
+    lemma_mod_bound(d - 1, sz);
+    assert(d - src_of(d, sz) == sz * q);
+    lemma_div_multiples_vanish(q, sz);
+    assert(sz * q == q * sz) by(nonlinear_arith);
+    assert(sheet_of(d, sz) == q);
+    assert(q >= 0) by(nonlinear_arith) requires d - 1 == sz * q + r, 0 <= r < sz, sz >= 1, d >= 1;
+    assert(q < n) by(nonlinear_arith) requires d - 1 == sz * q + r, 0 <= r < sz, sz >= 1, d <= n * sz;
+}
+
+pub proof fn lemma_compose(k: int, c: int, sz: int)
+    requires sz >= 1, k >= 0, 1 <= c <= sz
+    ensures src_of(sz * k + c, sz) == c, sheet_of(sz * k + c, sz) == k
+{
+    let d = sz * k + c;
+    assert(d - 1 == k * sz + (c - 1)) by(nonlinear_arith) requires d == sz * k + c;
+    lemma_fundamental_div_mod_converse(d - 1, sz, k, c - 1);
+    assert(d - src_of(d, sz) == k * sz) by(nonlinear_arith) requires d == sz * k + c, src_of(d, sz) == c;
+    lemma_div_multiples_vanish(k, sz);
+}
+
+
+
+// the base of a cover is complete: every operation is defined on every chamber
+pub open spec fn base_complete<T: DSet>(ds: &T) -> bool {
+    forall|i: int, c: int| 0 <= i <= ds.sdim() && 1 <= c <= ds.ssize() ==> (#[trigger] ds.sop(i, c)).is_some()
+}
+pub open spec fn bop<T: DSet>(ds: &T, i: int, c: int) -> int { ds.sop(i, c).unwrap() as int }
+
+proof fn lemma_bop<T: DSet>(ds: &T)
+    requires ds.wf(), base_complete(ds)
+    ensures 1 <= ds.ssize() < usize::MAX, 1 <= ds.sdim() < usize::MAX,
+        forall|i: int, c: int| 0 <= i <= ds.sdim() && 1 <= c <= ds.ssize() ==>
+            1 <= #[trigger] bop(ds, i, c) <= ds.ssize() && bop(ds, i, bop(ds, i, c)) == c && ds.sop(i, c) == Some(bop(ds, i, c) as usize),
+{
+    ds.lemma_wf();
+    assert forall|i: int, c: int| 0 <= i <= ds.sdim() && 1 <= c <= ds.ssize() implies
+            1 <= #[trigger] bop(ds, i, c) <= ds.ssize() && bop(ds, i, bop(ds, i, c)) == c && ds.sop(i, c) == Some(bop(ds, i, c) as usize) by {
+        assert(ds.sop(i, c).is_some());
+    }
+}
+
+pub open spec fn sm_ens<F: Fn(usize, usize, usize) -> usize>(sm: &F, k: usize, i: usize, c: usize, r: usize) -> bool {
+    sm.ensures((k, i, c), r)
+}
+pub open spec fn sm_req<F: Fn(usize, usize, usize) -> usize>(sm: &F, k: usize, i: usize, c: usize) -> bool {
+    sm.requires((k, i, c))
+}
+// requirements on the sheet map, as relations on the closure's ensures
+pub open spec fn sm_callable<T: DSet, F: Fn(usize, usize, usize) -> usize>(ds: &T, sm: &F, n: int) -> bool {
+    forall|k: usize, i: usize, c: usize| k < n && i <= ds.sdim() && 1 <= c <= ds.ssize() ==> #[trigger] sm.requires((k, i, c))
+}
+pub open spec fn sm_functional<T: DSet, F: Fn(usize, usize, usize) -> usize>(ds: &T, sm: &F, n: int) -> bool {
+    forall|k: usize, i: usize, c: usize, a: usize, b: usize| #![trigger sm_ens(sm, k, i, c, a), sm_ens(sm, k, i, c, b)]
+        k < n && i <= ds.sdim() && 1 <= c <= ds.ssize() && sm_ens(sm, k, i, c, a) && sm_ens(sm, k, i, c, b) ==> a == b && a < n
+}
+pub open spec fn sm_involutive<T: DSet, F: Fn(usize, usize, usize) -> usize>(ds: &T, sm: &F, n: int) -> bool {
+    forall|k: usize, i: usize, c: usize, k2: usize, k3: usize| #![trigger sm_ens(sm, k, i, c, k2), sm_ens(sm, k2, i, bop(ds, i as int, c as int) as usize, k3)]
+        k < n && i <= ds.sdim() && 1 <= c <= ds.ssize() && sm_ens(sm, k, i, c, k2)
+            && sm_ens(sm, k2, i, bop(ds, i as int, c as int) as usize, k3) ==> k3 == k
+}
+pub open spec fn sm_injective<T: DSet, F: Fn(usize, usize, usize) -> usize>(ds: &T, sm: &F, n: int) -> bool {
+    forall|ka: usize, kb: usize, i: usize, c: usize, k2: usize| #![trigger sm_ens(sm, ka, i, c, k2), sm_ens(sm, kb, i, c, k2)]
+        ka < n && kb < n && i <= ds.sdim() && 1 <= c <= ds.ssize() && sm_ens(sm, ka, i, c, k2) && sm_ens(sm, kb, i, c, k2) ==> ka == kb
+}
+
+// what the closure `op` of cover() computes, as a relation
+pub open spec fn cover_rel<T: DSet, F: Fn(usize, usize, usize) -> usize>(ds: &T, sm: &F, i: usize, d: usize, r: Option<usize>) -> bool {
+    let sz = ds.ssize();
+    let c = src_of(d as int, sz);
+    let k = sheet_of(d as int, sz);
+    exists|k2: usize| #[trigger] sm_ens(sm, k as usize, i, c as usize, k2) && r == Some((sz * k2 + bop(ds, i as int, c)) as usize)
+}
+
+
+// the projection of the cover onto its base, and the covering property (C05: "the projection of its chambers onto the base
+// commutes with every operation")
+pub open spec fn covers<T: DSet>(c: &PartialDSym, ds: &T, n: int) -> bool {
+    &&& c.inv()
+    &&& c.dset.size == n * ds.ssize()
+    &&& c.dset.dim == ds.sdim()
+    // complete, and op_i(projection d) == projection(op_i d) for every chamber d of the cover
+    &&& forall|i: int, d: int| 0 <= i <= ds.sdim() && 1 <= d <= n * ds.ssize() ==> {
+            let e = #[trigger] c.dset.t(i, d);
+            1 <= e <= n * ds.ssize() && src_of(e, ds.ssize()) == bop(ds, i, src_of(d, ds.ssize()))
+        }
+}
+
+// C05: "has the same number of preimages over every base chamber": the fibre of b is exactly { sz*k + b | 0 <= k < n }
+pub proof fn lemma_fibres(sz: int, n: int, b: int)
+    requires sz >= 1, n >= 1, 1 <= b <= sz
+    ensures
+        forall|k: int| 0 <= k < n ==> 1 <= #[trigger] (sz * k + b) <= n * sz && src_of(sz * k + b, sz) == b && sheet_of(sz * k + b, sz) == k,
+        forall|d: int| 1 <= d <= n * sz && #[trigger] src_of(d, sz) == b ==> 0 <= sheet_of(d, sz) < n && d == sz * sheet_of(d, sz) + b,
+{
+    assert forall|k: int| 0 <= k < n implies 1 <= #[trigger] (sz * k + b) <= n * sz && src_of(sz * k + b, sz) == b && sheet_of(sz * k + b, sz) == k by {
+        lemma_compose(k, b, sz);
+        assert(sz * k + b <= n * sz) by(nonlinear_arith) requires k < n, 1 <= b <= sz, sz >= 1, k >= 0;
+        assert(sz * k + b >= 1) by(nonlinear_arith) requires k >= 0, b >= 1, sz >= 1;
+    }
+    assert forall|d: int| 1 <= d <= n * sz && #[trigger] src_of(d, sz) == b implies 0 <= sheet_of(d, sz) < n && d == sz * sheet_of(d, sz) + b by {
+        lemma_sheet(d, sz, n);
+    }
+}
+
+//@ begin src/derived.rs :: - :: fn cover | props=C05
+//@ rw R16 /-> PartialDSym$/-> (res: PartialDSym)/
+//@ rw R15 /T: DSym,/T: DSet,/
+//@ rw R14 /^([ \t]*)let src = \|d: usize\| (.*);$/\1let src = |d: usize| -> (c: usize)\n\1{ \2 };/
+//@ rw R14 /^([ \t]*)let op = \|i, d\| (.*)$/\1let op = |i: usize, d: usize| -> (r: Option<usize>)\n\1{\n\1\2/
+//@ rw R14 /^([ \t]*)\.map\(\|di\| sz \* (sheet_map\(.*\)) \+ di\);$/\1.map(|di: usize| -> (e: usize)\n\1{\n\1let k2 = \2;\n\1sz * k2 + di\n\1})\n\1};/
+//@ rw R14 /^([ \t]*)build_sym_using_ms\(\n[ \t]*(build_set\(.*\)),\n[ \t]*\|i, d\| (.*)\n[ \t]*\)$/\1let __set = \2;\n\1let __r = build_sym_using_ms(__set, |i: usize, d: usize| -> (mm: Option<usize>)\n\1{ \3 });\n\1__r/
+#[verifier::spinoff_prover]
+pub fn cover<T, F>(ds: &T, nr_sheets: usize, sheet_map: F) -> (res: PartialDSym)
+    where
+        T: DSet,
+        F: Fn(usize, usize, usize) -> usize
+    requires ds.wf(), base_complete(ds),
+        nr_sheets >= 1, nr_sheets * ds.ssize() * (ds.sdim() + 1) <= usize::MAX, nr_sheets * ds.ssize() < usize::MAX,
+        // the sheet map is a function into 0..nr_sheets which, for every operation i, permutes the sheets over each i-edge consistently
+        sm_callable(ds, &sheet_map, nr_sheets as int), sm_functional(ds, &sheet_map, nr_sheets as int),
+        sm_involutive(ds, &sheet_map, nr_sheets as int), sm_injective(ds, &sheet_map, nr_sheets as int),
+    // C05: the result is a well-formed complete symbol of nr_sheets * size chambers whose projection d |-> (d-1) % size + 1
+    // onto the base commutes with every operation
+    ensures covers(&res, ds, nr_sheets as int)
+{
+    proof { lemma_bop(ds); }
+    let sz = ds.size();
+    let ghost n = nr_sheets as int;
+    let src = |d: usize| -> (c: usize)
+        requires d >= 1, sz >= 1
+        ensures c == src_of(d as int, sz as int)
+    { (d - 1) % sz + 1 };
+    let op = |i: usize, d: usize| -> (r: Option<usize>)
+        requires i <= ds.sdim(), 1 <= d <= n * sz, ds.wf(), base_complete(ds), sz == ds.ssize(), n >= 1, n * sz < usize::MAX,
+            sm_callable(ds, &sheet_map, n), sm_functional(ds, &sheet_map, n),
+            forall|x: usize| x >= 1 ==> #[trigger] src.requires((x,)),
+            forall|x: usize, y: usize| #[trigger] src.ensures((x,), y) ==> y == src_of(x as int, sz as int),
+        ensures cover_rel(ds, &sheet_map, i, d, r)
+    {
+        proof { lemma_bop(ds); lemma_sheet(d as int, sz as int, n); }
+    ds.op(i, src(d))
+        .map(|di: usize| -> (e: usize)
+            requires 1 <= di <= sz, di == bop(ds, i as int, src_of(d as int, sz as int)), i <= ds.sdim(), 1 <= d <= n * sz, sz == ds.ssize(), sz >= 1, n * sz < usize::MAX,
+                sm_callable(ds, &sheet_map, n), sm_functional(ds, &sheet_map, n),
+                forall|x: usize| x >= 1 ==> #[trigger] src.requires((x,)),
+                forall|x: usize, y: usize| #[trigger] src.ensures((x,), y) ==> y == src_of(x as int, sz as int),
+            ensures exists|k2: usize| #[trigger] sm_ens(&sheet_map, sheet_of(d as int, sz as int) as usize, i, src_of(d as int, sz as int) as usize, k2)
+                        && e == sz * k2 + di
+        {
+            proof { lemma_sheet(d as int, sz as int, n); }
+        let k2 = sheet_map((d - src(d)) / sz, i, src(d));
+            proof {
+                assert(sm_ens(&sheet_map, sheet_of(d as int, sz as int) as usize, i, src_of(d as int, sz as int) as usize, k2));
+                assert(k2 < n);
+                assert(sz * k2 + di <= n * sz) by(nonlinear_arith) requires k2 < n, 1 <= di <= sz, sz >= 1;
+            }
+        sz * k2 + di
+        })
+        };
+
+    proof {
+        assert(deterministic(op, (nr_sheets * sz) as usize, ds.sdim() as usize)) by {
+            assert forall|i: usize, d: usize, r1: Option<usize>, r2: Option<usize>|
+                #![trigger op.ensures((i, d), r1), op.ensures((i, d), r2)]
+                i <= ds.sdim() && 1 <= d <= n * sz && op.ensures((i, d), r1) && op.ensures((i, d), r2) implies r1 == r2 by {
+                lemma_sheet(d as int, sz as int, n);
+            }
+        }
+        assert(consistent(op, (nr_sheets * sz) as usize, ds.sdim() as usize)) by {
+            assert forall|i: usize, d: usize, e: usize| #![trigger op.ensures((i, d), Some(e))]
+                i <= ds.sdim() && 1 <= d <= n * sz && op.ensures((i, d), Some(e)) implies 1 <= e <= n * sz by {
+                lemma_sheet(d as int, sz as int, n);
+                let c = src_of(d as int, sz as int);
+                let k = sheet_of(d as int, sz as int);
+                let di = bop(ds, i as int, c);
+                let k2 = choose|k2: usize| #[trigger] sm_ens(&sheet_map, k as usize, i, c as usize, k2) && Some(e) == Some((sz * k2 + di) as usize);
+                assert(k2 < n);
+                assert(sz * k2 + di <= n * sz) by(nonlinear_arith) requires k2 < n, 1 <= di <= sz, sz >= 1;
+            }
+            assert forall|i: usize, d: usize, e: usize, r: Option<usize>| #![trigger op.ensures((i, d), Some(e)), op.ensures((i, e), r)]
+                i <= ds.sdim() && 1 <= d <= n * sz && op.ensures((i, d), Some(e)) && op.ensures((i, e), r) implies r == Some(d) by {
+                lemma_sheet(d as int, sz as int, n);
+                let c = src_of(d as int, sz as int);
+                let k = sheet_of(d as int, sz as int);
+                let di = bop(ds, i as int, c);
+                let k2 = choose|k2: usize| #[trigger] sm_ens(&sheet_map, k as usize, i, c as usize, k2) && Some(e) == Some((sz * k2 + di) as usize);
+                assert(k2 < n);
+                assert(sz * k2 + di <= n * sz) by(nonlinear_arith) requires k2 < n, 1 <= di <= sz, sz >= 1;
+                lemma_compose(k2 as int, di, sz as int);
+                assert(e == sz * k2 + di);
+                // unfold the second fact at (i, e)
+                let k3 = choose|k3: usize| #[trigger] sm_ens(&sheet_map, sheet_of(e as int, sz as int) as usize, i, src_of(e as int, sz as int) as usize, k3)
+                            && r == Some((sz * k3 + bop(ds, i as int, src_of(e as int, sz as int))) as usize);
+                assert(sm_ens(&sheet_map, k2, i, di as usize, k3));
+                assert(bop(ds, i as int, c) == di);
+                assert(k3 == k);
+                assert(bop(ds, i as int, di) == c);
+            }
+            assert forall|i: usize, a: usize, b: usize, e: usize| #![trigger op.ensures((i, a), Some(e)), op.ensures((i, b), Some(e))]
+                i <= ds.sdim() && 1 <= a <= n * sz && 1 <= b <= n * sz && op.ensures((i, a), Some(e)) && op.ensures((i, b), Some(e)) implies a == b by {
+                lemma_sheet(a as int, sz as int, n);
+                lemma_sheet(b as int, sz as int, n);
+                let ca = src_of(a as int, sz as int); let ka = sheet_of(a as int, sz as int); let da = bop(ds, i as int, ca);
+                let cb = src_of(b as int, sz as int); let kb = sheet_of(b as int, sz as int); let db = bop(ds, i as int, cb);
+                let k2a = choose|k2: usize| #[trigger] sm_ens(&sheet_map, ka as usize, i, ca as usize, k2) && Some(e) == Some((sz * k2 + da) as usize);
+                let k2b = choose|k2: usize| #[trigger] sm_ens(&sheet_map, kb as usize, i, cb as usize, k2) && Some(e) == Some((sz * k2 + db) as usize);
+                assert(k2a < n && k2b < n);
+                assert(sz * k2a + da <= n * sz) by(nonlinear_arith) requires k2a < n, 1 <= da <= sz, sz >= 1;
+                assert(sz * k2b + db <= n * sz) by(nonlinear_arith) requires k2b < n, 1 <= db <= sz, sz >= 1;
+                lemma_compose(k2a as int, da, sz as int);
+                lemma_compose(k2b as int, db, sz as int);
+                assert(k2a == k2b && da == db);
+                assert(bop(ds, i as int, da) == ca && bop(ds, i as int, db) == cb);
+                assert(ca == cb);
+                assert(ka == kb);
+            }
+        }
+    }
+    proof {
+        assert(nr_sheets * sz >= 1) by(nonlinear_arith) requires nr_sheets >= 1, sz >= 1;
+    }
+    let __set = build_set(nr_sheets * sz, ds.dim(), op);
+    proof {
+        assert forall|i: usize, d: usize| i <= ds.sdim() && 1 <= d <= nr_sheets * ds.ssize() implies ({
+            let e = #[trigger] __set.t(i as int, d as int);
+            1 <= e <= nr_sheets * ds.ssize() && src_of(e, ds.ssize()) == bop(ds, i as int, src_of(d as int, ds.ssize()))
+        }) by {
+            lemma_sheet(d as int, sz as int, n);
+            assert(op.ensures((i, d), __set.vop(i as int, d as int)));
+            let c = src_of(d as int, sz as int);
+            let k = sheet_of(d as int, sz as int);
+            let di = bop(ds, i as int, c);
+            assert(cover_rel(ds, &sheet_map, i, d, __set.vop(i as int, d as int)));
+            let k2 = choose|k2: usize| #[trigger] sm_ens(&sheet_map, k as usize, i, c as usize, k2) && __set.vop(i as int, d as int) == Some((sz * k2 + di) as usize);
+            assert(k2 < n);
+            assert(sz * k2 + di <= n * sz) by(nonlinear_arith) requires k2 < n, 1 <= di <= sz, sz >= 1;
+            lemma_compose(k2 as int, di, sz as int);
+            assert(__set.t(i as int, d as int) != 0);
+            assert(__set.t(i as int, d as int) as usize == (sz * k2 + di) as usize);
+        }
+        // the same, quantified over int
+        assert forall|i: int, d: int| 0 <= i <= ds.sdim() && 1 <= d <= n * ds.ssize() implies ({
+            let e = #[trigger] tbl(__set.op@, __set.dim as int, i, d);
+            1 <= e <= n * ds.ssize() && src_of(e, ds.ssize()) == bop(ds, i, src_of(d, ds.ssize()))
+        }) by {
+            let iu = i as usize; let du = d as usize;
+            assert(__set.t(iu as int, du as int) == tbl(__set.op@, __set.dim as int, i, d));
+        }
+        // complete: needed by build_sym_using_ms (`dset.into()` asserts it)
+        assert forall|i: int, d: int| 0 <= i <= __set.dim && 1 <= d <= __set.size implies #[trigger] tbl(__set.op@, __set.dim as int, i, d) != 0 by {
+            assert(__set.t(i as usize as int, d as usize as int) != 0);
+        }
+    }
+    let ghost set_op = __set.op@;
+    let ghost set_dim = __set.dim;
+    let __r = build_sym_using_ms(__set, |i: usize, d: usize| -> (mm: Option<usize>)
+        requires ds.wf(), d >= 1, i < ds.sdim(), ds.sdim() < usize::MAX, ds.ssize() >= 1
+    { ds.m(i, i + 1, (d - 1) % ds.size() + 1) });
+    proof {
+        assert forall|i: int, d: int| 0 <= i <= ds.sdim() && 1 <= d <= n * ds.ssize() implies ({
+            let e = #[trigger] __r.dset.t(i, d);
+            1 <= e <= n * ds.ssize() && src_of(e, ds.ssize()) == bop(ds, i, src_of(d, ds.ssize()))
+        }) by {
+            assert(__r.dset.t(i, d) == tbl(set_op, set_dim as int, i, d));
+        }
+    }
+    __r
+}
+//@ end
+
+// ---------------------------------------------------------------------------------------------------------
+// oriented_cover: the two-sheeted cover whose sheet map flips the sheet along edges that do not change orientation.
+// NOT under contract (Traversal-based, outside the verifier): is_oriented, partial_orientation, as_partial_dsym.
+// They are called through assumed free functions; the covering property proved below holds WHATEVER they return.
+// ---------------------------------------------------------------------------------------------------------
+//@ begin src/dsets.rs :: - :: enum Sign | props=C05
+pub enum Sign {
+    PLUS,
+    MINUS,
+    ZERO,
+}
+//@ end
+
+// derived PartialEq / Copy (dropped with the derive attribute, R0)
+impl vstd::std_specs::cmp::PartialEqSpecImpl for Sign {
+    open spec fn obeys_eq_spec() -> bool { true }
+    open spec fn eq_spec(&self, other: &Sign) -> bool { *self == *other }
+}
+impl PartialEq for Sign {
+    #[verifier::external_body]
+    fn eq(&self, other: &Self) -> (r: bool) { core::mem::discriminant(self) == core::mem::discriminant(other) }
+}
+impl Clone for Sign {
+    #[verifier::external_body]
+    fn clone(&self) -> (r: Self) ensures r == *self { match self { Sign::PLUS => Sign::PLUS, Sign::MINUS => Sign::MINUS, Sign::ZERO => Sign::ZERO } }
+}
+impl Copy for Sign {}
+
+#[verifier::external_body]
+pub fn __is_oriented<T: DSet>(ds: &T) -> (r: bool) requires ds.wf() { unimplemented!() }
+#[verifier::external_body]
+pub fn __partial_orientation<T: DSet>(ds: &T) -> (r: Vec<Sign>) requires ds.wf() ensures r@.len() == ds.ssize() + 1 { unimplemented!() }
+// as_partial_dsym(ds) copies ds through build_set / build_sym_using_vs (the latter not under contract): ASSUMED to be a 1-sheeted cover
+#[verifier::external_body]
+pub fn __as_partial_dsym<T: DSet>(ds: &T) -> (r: PartialDSym) requires ds.wf(), base_complete(ds) ensures covers(&r, ds, 1) { unimplemented!() }
+
+proof fn lemma_xor1(k: usize)
+    ensures (k ^ 1) ^ 1 == k, k < 2 ==> (k ^ 1) < 2, k ^ 1 != k
+{
+    assert((k ^ 1) ^ 1 == k) by(bit_vector);
+    assert(k < 2 ==> (k ^ 1) < 2) by(bit_vector);
+    assert(k ^ 1 != k) by(bit_vector);
+}
+
+proof fn lemma_xor1_inj(a: usize, b: usize)
+    requires a ^ 1 == b ^ 1
+    ensures a == b
+{
+    assert(a ^ 1 == b ^ 1 ==> a == b) by(bit_vector);
+}
+
+//@ begin src/derived.rs :: - :: fn oriented_cover | props=C05
+//@ rw R16 /-> PartialDSym$/-> (res: PartialDSym)/
+//@ rw R15 /<T: DSym>/<T: DSet>/
+//@ rw R5 /ds\.is_oriented\(\)/__is_oriented(ds)/
+//@ rw R5 /as_partial_dsym\(ds\)/__as_partial_dsym(ds)/
+//@ rw R5 /ds\.partial_orientation\(\)/__partial_orientation(ds)/
+//@ rw R14 /^([ \t]*)let sheet_map = \|k, i, d\| \{$/\1let sheet_map = |k: usize, i: usize, d: usize| -> (k2: usize)\n\1{/
+pub fn oriented_cover<T: DSet>(ds: &T) -> (res: PartialDSym)
+    requires ds.wf(), base_complete(ds),
+        2 * ds.ssize() * (ds.sdim() + 1) <= usize::MAX, 2 * ds.ssize() < usize::MAX,
+    // C05: either way the result covers the base, with one sheet or two
+    ensures covers(&res, ds, 1) || covers(&res, ds, 2)
+{
+    proof { lemma_bop(ds); }
+    if __is_oriented(ds) {
+        __as_partial_dsym(ds)
+    } else {
+        let ori = __partial_orientation(ds);
+        let sheet_map = |k: usize, i: usize, d: usize| -> (k2: usize)
+            requires ds.wf(), base_complete(ds), i <= ds.sdim(), 1 <= d <= ds.ssize(), ori@.len() == ds.ssize() + 1,
+            ensures k2 == (if ori@[d as int] == ori@[bop(ds, i as int, d as int)] { k ^ 1 } else { k })
+        {
+            proof { lemma_bop(ds); assert(1 <= bop(ds, i as int, d as int) <= ds.ssize()); }
+            if ori[d] == ori[ds.op(i, d).unwrap()] { k ^ 1 } else { k }
+        };
+        proof {
+            // the test `ori[d] == ori[op_i d]` is symmetric in d <-> op_i d, so flipping is an involution and injective
+            assert(sm_functional(ds, &sheet_map, 2)) by {
+                assert forall|k: usize, i: usize, c: usize, a: usize, b: usize| #![trigger sm_ens(&sheet_map, k, i, c, a), sm_ens(&sheet_map, k, i, c, b)]
+                    k < 2 && i <= ds.sdim() && 1 <= c <= ds.ssize() && sm_ens(&sheet_map, k, i, c, a) && sm_ens(&sheet_map, k, i, c, b) implies a == b && a < 2 by {
+                    lemma_xor1(k);
+                }
+            }
+            assert(sm_involutive(ds, &sheet_map, 2)) by {
+                assert forall|k: usize, i: usize, c: usize, k2: usize, k3: usize| #![trigger sm_ens(&sheet_map, k, i, c, k2), sm_ens(&sheet_map, k2, i, bop(ds, i as int, c as int) as usize, k3)]
+                    k < 2 && i <= ds.sdim() && 1 <= c <= ds.ssize() && sm_ens(&sheet_map, k, i, c, k2)
+                        && sm_ens(&sheet_map, k2, i, bop(ds, i as int, c as int) as usize, k3) implies k3 == k by {
+                    lemma_xor1(k);
+                    let c2 = bop(ds, i as int, c as int);
+                    assert(bop(ds, i as int, c2) == c);
+                }
+            }
+            assert(sm_injective(ds, &sheet_map, 2)) by {
+                assert forall|ka: usize, kb: usize, i: usize, c: usize, k2: usize| #![trigger sm_ens(&sheet_map, ka, i, c, k2), sm_ens(&sheet_map, kb, i, c, k2)]
+                    ka < 2 && kb < 2 && i <= ds.sdim() && 1 <= c <= ds.ssize() && sm_ens(&sheet_map, ka, i, c, k2) && sm_ens(&sheet_map, kb, i, c, k2) implies ka == kb by {
+                    if ori@[c as int] == ori@[bop(ds, i as int, c as int)] { lemma_xor1_inj(ka, kb); }
+                }
+            }
+            assert(sm_callable(ds, &sheet_map, 2));
+        }
+        cover(ds, 2, sheet_map)
+    }
+}
+//@ end
+
 // =====================================================================================================
 // vacuity guards: canary_* MUST FAIL, witness_* must verify
 // =====================================================================================================
@@ -1924,6 +2541,13 @@ fn canary_from_str_contract(s: &str)
     ensures false
 {
     let r = PartialDSym::from_str(s);
+}
+
+fn canary_cover_contract<T: DSet>(ds: &T)
+    requires ds.wf(), base_complete(ds), 2 * ds.ssize() * (ds.sdim() + 1) <= usize::MAX, 2 * ds.ssize() < usize::MAX,
+    ensures false
+{
+    let r = oriented_cover(ds);
 }
 
 fn witness_calls()
